@@ -303,7 +303,7 @@ def r05_3(ctx):
                         key_new = v == "Some"
                     if a[0] == "disc" and a[1] == ("field", ("param", 1), self_field, "action::Action"):
                         key_old = v == "Some"
-                    if a[0] == "call" and a[1] == "std::vec::Vec::is_empty" and mentions_field(a[2][0], CODES) and mentions_field(a[2][0], self_field, "action::Action"):
+                    if a[0] == "call" and a[1].endswith("::is_empty") and mentions_field(a[2][0], CODES) and mentions_field(a[2][0], self_field, "action::Action"):
                         if mentions(a[2][0], lambda x: x == ("param", 2)):
                             new_unc = bool(v)
                         elif mentions(a[2][0], lambda x: x == ("param", 1)):
